@@ -5,6 +5,7 @@ go 1.16
 require (
 	github.com/bnb-chain/tss-lib/v2 v2.0.0
 	github.com/btcsuite/btcd/btcec/v2 v2.3.2
+	google.golang.org/protobuf v1.31.0
 )
 
 replace github.com/bnb-chain/tss-lib/v2 => /repo
